@@ -296,6 +296,31 @@ for _i in range(MAX_STEPS):
 
 generated.register(ProgBase, 'ProgBase')
 
+
+def _used_before():
+    """Every generated class is built in an interpreter in which a plain ``plumpy.Process`` and a ``plumpy.WorkChain`` have been used
+    already (as in any application that has run something before): what a class is -- its states, its spec -- must not depend on which
+    other classes were used before it."""
+    loop = asyncio.new_event_loop()
+    try:
+        plumpy.Process(loop=loop)
+
+        class _EarlierChain(plumpy.WorkChain):
+            @classmethod
+            def define(cls, spec):
+                super().define(spec)
+                spec.outline(cls.only)
+
+            def only(self):
+                pass
+
+        _EarlierChain(loop=loop)
+    finally:
+        loop.close()
+
+
+_used_before()
+
 _CLASS_CACHE = {}
 
 
